@@ -179,8 +179,10 @@ struct QName {
 
 /// Owners that carry a TXT marker in every zone enclosing them (text form, lower case) — plus the
 /// two 255-octet names.
-const MARKER_OWNERS: [&str; 13] =
-    [".", "z.", "x.z.", "a.z.", "x.a.z.", "a.a.z.", "x.a.a.z.", "b.z.", "x.b.z.", "o.", "x.o.", "az.", "z.a."];
+const MARKER_OWNERS: [&str; 17] = [
+    ".", "z.", "x.z.", "a.z.", "x.a.z.", "a.a.z.", "x.a.a.z.", "b.z.", "x.b.z.", "o.", "x.o.", "az.", "z.a.", "xa.z.",
+    "a.a.a.z.", "a.z.b.z.", "z.z.",
+];
 
 fn qnames() -> Vec<QName> {
     let mut v = vec![];
@@ -429,6 +431,20 @@ fn exec(rt: &tokio::runtime::Runtime, srv: &Srv, bytes: &[u8], proto: Protocol) 
 // ------------------------------------------------------------------------------------------
 // the oracle
 
+/// Observation where the statement is silent: counted, never judged. `C11_SHOW=<class prefix>`
+/// prints the first few cases of a class (debugging aid).
+fn obs(l: &mut Local, class: &str, req: &[u8], out: &[Vec<u8>]) {
+    use std::sync::atomic::{AtomicU32, Ordering};
+    static SHOWN: AtomicU32 = AtomicU32::new(0);
+    static SHOW: std::sync::OnceLock<Option<String>> = std::sync::OnceLock::new();
+    if let Some(want) = SHOW.get_or_init(|| std::env::var("C11_SHOW").ok()) {
+        if class.starts_with(want.as_str()) && SHOWN.fetch_add(1, Ordering::Relaxed) < 12 {
+            eprintln!("{class}: request {} -> {:?}", hex::enc(req), out.iter().map(|r| hex::enc(r)).collect::<Vec<_>>());
+        }
+    }
+    l.outcome(class);
+}
+
 struct Finding {
     key: String,
     what: String,
@@ -583,6 +599,20 @@ fn zone_ids(r: &[u8], v: &RespView, cfg: &fd::Config) -> Vec<Option<usize>> {
 /// Judge one request/response-list pair. Returns the first violated clause.
 fn judge(cfg: &fd::Config, src: SocketAddr, req: &[u8], out: &[Vec<u8>], l: &mut Local) -> Option<Finding> {
     let e = fd::expect(cfg, src.ip(), req);
+    l.outcome(match (e.respond, e.why_silent) {
+        (true, _) => "expect:one-response",
+        (false, "is-a-response") => "expect:silence:is-a-response",
+        (false, _) => "expect:silence:shorter-than-header",
+    });
+    for g in &e.gates {
+        l.outcome(match *g {
+            "unsupported-opcode" => "expect:gate:unsupported-opcode",
+            "unparsable" => "expect:gate:unparsable",
+            "denied-source" => "expect:gate:denied-source",
+            "edns-version-gt0" => "expect:gate:edns-version-gt0",
+            _ => "expect:gate:no-enclosing-zone",
+        });
+    }
     if !e.respond {
         if out.is_empty() {
             l.outcome(if e.why_silent == "is-a-response" { "silent:is-a-response" } else { "silent:shorter-than-header" });
@@ -627,7 +657,7 @@ fn judge(cfg: &fd::Config, src: SocketAddr, req: &[u8], out: &[Vec<u8>], l: &mut
                 ),
             );
         }
-        l.outcome("obs:undecodable-question-in-unjudged-response");
+        obs(l, "obs:undecodable-question-in-unjudged-response", req, out);
         v.rcode = low;
     }
     l.outcome(rcode_class(v.rcode));
@@ -647,20 +677,20 @@ fn judge(cfg: &fd::Config, src: SocketAddr, req: &[u8], out: &[Vec<u8>], l: &mut
     // observations where the statement is silent
     if e.rcodes.any {
         match e.opcode {
-            0 => l.outcome("obs:query-unjudged-rcode"),
-            5 => l.outcome(&format!("obs:update-rcode:{}", fd::rcode_name(v.rcode))),
+            0 => obs(l, &format!("obs:query-unjudged-rcode:{}", fd::rcode_name(v.rcode)), req, out),
+            5 => obs(l, &format!("obs:update-rcode:{}", fd::rcode_name(v.rcode)), req, out),
             _ => {}
         }
     }
     if e.opcode != 0 && e.opcode != 5 && v.qd == 0 {
-        l.outcome("obs:unsupported-opcode-response-without-question");
+        obs(l, "obs:unsupported-opcode-response-without-question", req, out);
     }
     if (r[2] >> 3) & 0xf != e.opcode {
-        l.outcome("obs:response-opcode-differs-from-request");
+        obs(l, "obs:response-opcode-differs-from-request", req, out);
     }
     let hick = Message::from_vec(r);
     if hick.is_err() {
-        l.outcome("obs:hickory-cannot-decode-response");
+        obs(l, "obs:hickory-cannot-decode-response", req, out);
     }
 
     // question echo: queries and updates that were not turned away with FORMERR / NOTIMP
@@ -746,7 +776,7 @@ fn judge(cfg: &fd::Config, src: SocketAddr, req: &[u8], out: &[Vec<u8>], l: &mut
                         format!("plain query answered {} without any data identifying the zone (walk complete: {})", fd::rcode_name(v.rcode), v.walk_complete),
                     );
                 }
-                l.outcome("obs:answer-without-zone-data");
+                obs(l, "obs:answer-without-zone-data", req, out);
             } else {
                 l.outcome("checked:zone");
             }
@@ -1023,7 +1053,7 @@ fn main() {
 
     ctx.set_rule(
         "E-ENUM, every element executed on the real Server front door + Catalog + InMemoryZoneHandler and followed by a fixed \
-         probe query on the same server object. Families: (F1) catalog shapes x access lists x UDP/TCP x query names x qtype x \
+         probe query on the same server object. Families: (F0) catalog shapes x access lists x UDP/TCP x query names x plain qtypes x EDNS x flags x ids; (F1) catalog shapes x access lists x UDP/TCP x query names x qtype x \
          EDNS x EVERY opcode 0..15; (F2) shapes x access classes x UDP/TCP x names x qtypes x qclasses x 16 EDNS variants x \
          opcodes; (F3) header product id x QR x opcode x single flag bit x request rcode nibble x 16 section-count variants \
          (consistent/inconsistent with the body) x names x EDNS; (F4) EVERY prefix and EVERY single-byte substitution \
@@ -1043,6 +1073,38 @@ fn main() {
     let nshape = SHAPES.len() as u64;
     let nacl = ACLS.len() as u64;
     let seed = ctx.seed;
+
+    // ---- F0: zone dispatch, plain queries ---------------------------------------------------
+    {
+        let qtypes: [u16; 6] = [16, 1, 6, 2, 15, 28];
+        let edns: [usize; 3] = [0, 1, 7];
+        let flagsets: [u16; 3] = [0x0000, 0x0100, 0x0030];
+        let ids: [u16; 3] = [0, 1, 0xffff];
+        let od = Odometer::new(&[3, 3, 3, 6, nq, 2, nacl, nshape]);
+        let n = od.space();
+        ctx.set("F0_zone_dispatch_cases", json!(n));
+        ctx.par_run_init(
+            n,
+            512,
+            |_| Worker::new(&world),
+            |i, l, w| {
+                let d = od.get(rotate(i, n, seed));
+                let pl = Place { shape: d[7] as usize, acl: d[6] as usize, tcp: d[5] == 1 };
+                let req = build_request(
+                    ids[d[0] as usize],
+                    flagsets[d[1] as usize],
+                    &w.world.qn[d[4] as usize].wire,
+                    qtypes[d[3] as usize],
+                    1,
+                    edns[d[2] as usize],
+                );
+                run_one(w, "F0", pl, &req, l);
+                if i % 100_003 == 0 {
+                    l.sample(case_json("F0", pl, &req, None));
+                }
+            },
+        );
+    }
 
     // ---- F1: dispatch product, every opcode ------------------------------------------------
     {
@@ -1072,9 +1134,9 @@ fn main() {
     {
         let qtypes: [u16; 9] = [1, 16, 6, 2, 252, 255, 41, 65535, 0];
         let qclasses: [u16; 4] = [1, 3, 255, 0];
-        let opcodes: [u16; 4] = [0, 2, 5, 9];
-        let acls: [usize; 3] = [0, 1, 4];
-        let od = Odometer::new(&[4, EDNS_NAMES.len() as u64, 4, 9, nq, 2, 3, nshape]);
+        let opcodes: Vec<u16> = if thorough { vec![0, 5, 2, 9] } else { vec![0, 5] };
+        let acls: Vec<usize> = if thorough { vec![0, 1, 4] } else { vec![0, 1] };
+        let od = Odometer::new(&[opcodes.len() as u64, EDNS_NAMES.len() as u64, 4, 9, nq, 2, acls.len() as u64, nshape]);
         let n = od.space();
         ctx.set("F2_type_class_edns_cases", json!(n));
         ctx.par_run_init(
@@ -1184,6 +1246,40 @@ fn main() {
         );
     }
 
+    // ---- F4b (thorough): every PAIR of substitutions from S in the shorter seeds ------------
+    if thorough {
+        let seeds: Vec<(&'static str, Vec<u8>)> = seeds(&world).into_iter().filter(|s| s.1.len() <= 80).collect();
+        let places = [Place { shape: 2, acl: 0, tcp: false }, Place { shape: 5, acl: 1, tcp: true }];
+        let mut items: Vec<(usize, usize, usize)> = vec![];
+        for (si, (_, b)) in seeds.iter().enumerate() {
+            for i in 0..b.len() {
+                for j in i + 1..b.len() {
+                    items.push((si, i, j));
+                }
+            }
+        }
+        let n = items.len() as u64;
+        ctx.set("F4b_pair_cases", json!(n * 196 * places.len() as u64));
+        ctx.par_run_init(
+            n,
+            4,
+            |_| Worker::new(&world),
+            |i, l, w| {
+                let (si, a, b) = items[rotate(i, n, seed) as usize];
+                let mut m = seeds[si].1.clone();
+                for va in S {
+                    for vb in S {
+                        m[a] = va;
+                        m[b] = vb;
+                        for pl in &places {
+                            run_one(w, "F4b-pair", *pl, &m, l);
+                        }
+                    }
+                }
+            },
+        );
+    }
+
     // ---- F5: all short strings over S as whole messages ------------------------------------
     {
         let maxlen: u32 = if thorough { 6 } else { 5 };
@@ -1248,8 +1344,13 @@ fn main() {
     ctx.set("edns_variants", json!(EDNS_NAMES));
 
     for class in [
-        "silent:is-a-response",
-        "silent:shorter-than-header",
+        "expect:silence:is-a-response",
+        "expect:silence:shorter-than-header",
+        "expect:gate:unsupported-opcode",
+        "expect:gate:unparsable",
+        "expect:gate:denied-source",
+        "expect:gate:edns-version-gt0",
+        "expect:gate:no-enclosing-zone",
         "answered:NOERROR",
         "answered:NXDOMAIN",
         "answered:FORMERR",
